@@ -86,7 +86,7 @@ Proof.
     assert (0 < / qofZ 100) by (apply inv_pos; reflexivity). set (i := / qofZ 100) in *. clearbody i.
     assert (Hmi : 0 <= maxp * i) by (qc_arith; nra). set (mi := maxp * i) in *. clearbody mi. qc_arith. nra. }
   clearbody risk mx.
-  destruct long; cbn [String.eqb Ascii.eqb Bool.eqb]; destruct (qltb_spec mx risk); repeat split; qc_arith; lra.
+  destruct long; cbn [String.eqb Ascii.eqb Bool.eqb negb andb orb]; destruct (qltb_spec mx risk); repeat split; qc_arith; lra.
 Qed.
 
 Lemma qabs_pos x : x <> 0 -> 0 < qabs x.
